@@ -57,7 +57,7 @@ def run(ctx):
     g, _ = graphwalk.emit_graph(SPEC, model.cfg_text(consts, view="View", action_constraint="EmitBounded"),
                                 ctx, "LFUCache")
     adapter = LFUAdapter(cache_class())
-    stats = graphwalk.walk(g, adapter, ctx, "LFUCache", sig_fn=sig_fn, paths_per_state=2)
+    stats = graphwalk.walk(g, adapter, ctx, "LFUCache", sig_fn=sig_fn, paths_per_state=2, history_ops=("clear", "popitem"))
     ctx.note("walk %s" % stats)
     ctx.exhaustive = True
     rnd = random.Random(ctx.seed * 7919 + 7)
